@@ -461,3 +461,11 @@ Lemma parked_not_displaced es cid ft t r k e n x :
 Proof.
   intros Hf Hk He Hn Hlt Hl. cbn [layer_step]. rewrite Hk, He. now rewrite (parked_number_refused _ _ n x Hf Hn Hlt Hl).
 Qed.
+
+(* registering a further usage adds it behind the ones that are there and touches nothing else *)
+Lemma add_appends_usage es k u e :
+  entries_find k es = Some e ->
+  exists e', entries_find k (fst (layer_step es (AddUsage k u))) = Some e' /\ e_usages e' = e_usages e ++ [u] /\ e_st e' = e_st e.
+Proof.
+  intros He. simpl. eexists. split; [apply entries_find_update_same; [reflexivity | exact He]|]. simpl. auto.
+Qed.
